@@ -294,7 +294,8 @@ def run_oer(ctx):
         # (the encoder is right and stays compared)
         keep = []
         for d in dis:
-            if d["stage"] == "decode" and "ext_seq_ge8_optional" in oer_features(d["_t"], env):
+            if d["stage"] == "decode" and "ext_seq_ge8_optional" in oer_features(d["_t"], env) \
+                    and ctx.match_finding(lambda f: f["id"] == "F121" and f.get("property") == "C02"):
                 skipped["F121"] += 1; st["oer_dec_diff"] -= 1; st["oer_dec_F121"] += 1
             else: keep.append(d)
         dis = keep
